@@ -92,6 +92,8 @@ type State struct {
 	Iter    map[ast.Stmt]string
 	IterNow string // case of the innermost active loop iteration
 	iterCnt map[ast.Stmt]int
+	// fields written on a symbolic base (a captured struct variable, a parameter): read back by later field loads
+	symFields map[string]Val
 }
 
 func (st *State) clone() *State {
@@ -117,6 +119,12 @@ func (st *State) clone() *State {
 		n.iterCnt = make(map[ast.Stmt]int, len(st.iterCnt))
 		for k, v := range st.iterCnt {
 			n.iterCnt[k] = v
+		}
+	}
+	if st.symFields != nil {
+		n.symFields = make(map[string]Val, len(st.symFields))
+		for k, v := range st.symFields {
+			n.symFields[k] = v
 		}
 	}
 	n.Events = append([]Event(nil), st.Events...)
@@ -174,6 +182,14 @@ func (st *State) key(heapShow func(Val) string) string {
 	}
 	sort.Strings(as)
 	b.WriteString("|" + strings.Join(as, ",") + "|ref=" + st.Ref)
+	if len(st.symFields) > 0 {
+		fs := make([]string, 0, len(st.symFields))
+		for k, v := range st.symFields {
+			fs = append(fs, k+"="+heapShow(v))
+		}
+		sort.Strings(fs)
+		b.WriteString("|fields=" + strings.Join(fs, ","))
+	}
 	return b.String()
 }
 
